@@ -121,6 +121,9 @@ PURE_BUILTINS = {
     "dict": dict,
     "bytes": bytes,
     "ord": ord,
+    "range": range,
+    "hex": hex,
+    "bytearray": bytearray,
 }
 
 
